@@ -445,8 +445,89 @@ fn structure(lists: &[List]) -> String {
 }
 
 pub fn replay(case: &serde_json::Value) -> i32 {
+    if let (Some(w), Some(h)) = (case["with_aliases"].as_str(), case["by_hand"].as_str()) {
+        for (script, file) in [(w, case["file_with"].as_str().unwrap_or("")), (h, case["file_plain"].as_str().unwrap_or(""))] {
+            let mut setup = crate::vsh::Setup::script(script);
+            setup.files.push(("/tmp/al".into(), format!("{file}\n").into_bytes(), 0o644));
+            let r = crate::vsh::run_once(&setup, &Default::default());
+            println!("script:\n{script}\n--\nend={:?} stdout={:?}\ntrace={:?}\nstderr={}\n", r.end, r.stdout, r.trace_by_proc(), r.stderr);
+        }
+        return 1;
+    }
     println!("{}", serde_json::to_string_pretty(case).unwrap());
     1
+}
+
+/// Through the whole shell: "the commands executed equal those obtained by performing these textual
+/// substitutions by hand" wherever the command line happens to be parsed — by the shell itself, in a
+/// forked child (`$( )`, back-quotes), by `eval` or `.` in the shell, in a subshell, a pipeline
+/// element or an asynchronous list, in a function body. Differential: the script with `alias`
+/// definitions on its first line against the script with the hand-substituted text in their place.
+/// Returns (runs, pairs compared).
+fn through_the_shell(ctx: &Ctx) -> (u64, u64) {
+    use crate::vsh::{self, Setup};
+    const VALS: [Option<&str>; 12] = [None, Some("p k"), Some("p k "), Some("b"), Some("b "), Some("a"), Some("p k; p m"), Some("! s 1"), Some("if s 0; then p t; fi"), Some("s 0 &&"), Some("p k >/dev/null"), Some("p k |")];
+    const TEMPLATES: [&str; 17] = [
+        "@",
+        "echo $(@)",
+        "echo \"$(@)\"",
+        "echo `@`",
+        "(@)",
+        "@ | cat",
+        "@ &\nwait",
+        "eval '@'",
+        "(eval '@')",
+        "eval '@' | cat",
+        "{ eval '@'; } &\nwait",
+        "x=$(eval '@'); echo \"$x\"",
+        ". /tmp/al",
+        "(. /tmp/al)",
+        "f() { @\n}; f",
+        "(f() { @\n}; f)",
+        "s 0 && (eval '@') || p no",
+    ];
+    let mut work: Vec<(usize, usize, &str, &str)> = vec![];
+    for (ia, _) in VALS.iter().enumerate().skip(1) {
+        for (ib, _) in VALS.iter().enumerate() {
+            for piece in ["a", "a b", "a p z"] {
+                for t in TEMPLATES {
+                    work.push((ia, ib, piece, t));
+                }
+            }
+        }
+    }
+    let runs = AtomicU64::new(0);
+    let pairs = AtomicU64::new(0);
+    work.par_iter().for_each(|(ia, ib, piece, template)| {
+        let table: [Option<&str>; 3] = [VALS[*ia], VALS[*ib], None];
+        let Some(by_hand) = refalias(piece, &table, false) else { return };
+        // only texts that are complete commands on their own can be planted everywhere
+        if parse_with(&by_hand, &AliasSet::new()).is_err() || by_hand.contains('\'') {
+            return;
+        }
+        let defs: String = NAMES.iter().zip(table.iter()).filter_map(|(n, v)| v.map(|v| format!("alias {n}='{v}'\n"))).collect();
+        let with_alias = format!("{defs}{}\np end\n", template.replace('@', piece));
+        let plain = format!("{}\np end\n", template.replace('@', &by_hand));
+        let run = |script: &str, file: &str| {
+            let mut setup = Setup::script(script);
+            setup.files.push(("/tmp/al".into(), format!("{file}\n").into_bytes(), 0o644));
+            vsh::run_once(&setup, &Default::default())
+        };
+        let _g = case_guard(format!("alias through the shell: {with_alias}"));
+        let a = run(&with_alias, piece);
+        let b = run(&plain, &by_hand);
+        runs.fetch_add(2, Relaxed);
+        pairs.fetch_add(1, Relaxed);
+        let obs = |r: &vsh::Run| (format!("{:?}", r.end), r.stdout.clone(), r.trace_by_proc(), r.stderr.is_empty(), r.panic.is_some());
+        if obs(&a) != obs(&b) {
+            ctx.violation(
+                "c17:commands-executed-differ-from-hand-substitution",
+                &format!("with the aliases defined: {with_alias:?} gave {:?}; substituted by hand: {plain:?} gave {:?}", obs(&a), obs(&b)),
+                json!({"with_aliases": with_alias, "by_hand": plain, "file_with": piece, "file_plain": by_hand}),
+            );
+        }
+    });
+    (runs.load(Relaxed), pairs.load(Relaxed))
 }
 
 pub fn run(tier: Tier) -> i32 {
@@ -527,8 +608,11 @@ pub fn run(tier: Tier) -> i32 {
             }
         }
     });
+    let (shell_runs, shell_pairs) = through_the_shell(&ctx);
     let cov = json!({
-        "evaluations": evals.load(Relaxed),
+        "through_the_shell_runs": shell_runs,
+        "through_the_shell_pairs_compared": shell_pairs,
+        "evaluations": evals.load(Relaxed) + shell_runs,
         "distinct_nontrivial": substituted.load(Relaxed),
         "rule": format!("every alias table over names a,b,c with each name undefined or one of {} values (empty, other names with and without trailing blank, itself, x, x y, if, !, {{, ;, | x, > f, 'b', \\b, 2>&1 x , values ending in a redirection operator and a blank, values starting / ending with a newline) = {} tables x {} command lines placing the names in command, argument, post-assignment, post-redirection, post-keyword, post-! | && ( positions, quoted, and across line continuations (quick: every second (table,line) pair), and the same tables with c marked as a global alias (substituted in any word of a command); the real parser with the alias table must terminate and produce the tree of the hand-substituted text parsed without aliases (Locations erased). Non-trivial = the hand substitution changed the line.", nv - 1, tables.len(), LINES.len()),
         "samples": samples.take(),
